@@ -9,6 +9,7 @@ mod c05;
 mod c09;
 mod c11;
 mod c13;
+mod c14;
 mod sp;
 mod case;
 mod gen;
@@ -76,6 +77,10 @@ fn main() {
                 "C13" => {
                     rep = Report::new("C13", "matrices of every size from 0 to a bound with distinct cell values: every ordered pair read, every pair set and the whole table read back, indexed iteration, pair-keyed map, extrema with ties; random set/get sequences against a plain table; the crate's floating-point inverse index against an integer inverse at every triangular-number boundary (stride-sampled in the quick tier) below 2^50; a case is one matrix or one sequence; non-trivial = at least three taxa");
                     c13::run(tier == "thorough", seed, &driver, &mut rep);
+                }
+                "C14" => {
+                    rep = Report::new("C14", "Phylip texts: every string up to a length bound over 0 1 . a space newline, mutated valid files (extra/missing row or field, size 0/1, +n, trailing blanks, CRLF, asymmetry, non-zero diagonal, blank line), and matrices of size 1..25 with dyadic / decimal / arbitrary-bit-pattern f64 and f32 entries written in both layouts and parsed by all three entry points; a case is one text or one (matrix, layout); non-trivial = contains a newline / at least two taxa");
+                    c14::run(tier == "thorough", seed, &driver, &mut rep);
                 }
                 "C02" => {
                     rep = Report::new("C02", "strings fed to Tree::from_newick (corpus, every string up to a length bound over the token alphabet ( ) , ; : [ ] \" a 1 space, every short float lexeme, mutated valid Newick, random Unicode); a case is one string; non-trivial = contains at least one structural token");
